@@ -45,11 +45,48 @@ def evaluate(sid, prop, checks):
     return res
 
 
+def table():
+    """Rewrite the generated table of DESIGN.md section 10 from the seeded meta.json files."""
+    rows = ['| change | breaks | what it needs in order to manifest (first line of the notes) | caught by | first violation reported |',
+            '|--------|--------|------------------------------------------------------------------|-----------|--------------------------|']
+    n = caught = 0
+    for sid in sorted(os.listdir(os.path.join(HERE, 'seeded'))):
+        mp = os.path.join(HERE, 'seeded', sid, 'meta.json')
+        if not os.path.exists(mp):
+            continue
+        meta = json.load(open(mp))
+        det = meta.get('detected_by') or {}
+        yes = [c for c, r in det.items() if r.get('caught')]
+        no = [c for c, r in det.items() if not r.get('caught')]
+        needs = (meta.get('needs_to_manifest') or '').strip().splitlines()[0] if meta.get('needs_to_manifest') else ''
+        needs = re.sub(r'^fixed: property=\S+ \S+ ', '', needs)
+        msg = next((det[c].get('violation') or '' for c in yes), '')
+        own = meta['breaks_property']
+        n += 1
+        caught += own in yes
+        cell = ', '.join(yes) if yes else '**missed**'
+        if no:
+            cell += ' (not by ' + ', '.join(no) + ')'
+        rows.append('| %s | %s | %s | %s | %s |' % (sid, own, needs[:230].replace('|', '/'), cell, msg[:160].replace('|', '/').replace('\n', ' ')))
+    rows.append('')
+    rows.append(f'{caught} of {n} seeded changes are caught by the quick check of the property they break.')
+    path = os.path.join(HERE, 'DESIGN.md')
+    text = open(path).read()
+    a = text.index('<!-- SENSITIVITY-TABLE-BEGIN -->') + len('<!-- SENSITIVITY-TABLE-BEGIN -->')
+    b = text.index('<!-- SENSITIVITY-TABLE-END -->')
+    open(path, 'w').write(text[:a] + '\n' + '\n'.join(rows) + '\n' + text[b:])
+    print(rows[-1])
+
+
 def main():
     ap = argparse.ArgumentParser()
+    ap.add_argument('--table', action='store_true')
     ap.add_argument('--only')
     ap.add_argument('--jobs', type=int, default=2)
     args = ap.parse_args()
+    if args.table:
+        table()
+        return 0
     ids = sorted(os.listdir(os.path.join(HERE, 'seeded')))
     if args.only:
         ids = [i for i in ids if i in args.only.split(',')]
